@@ -2,7 +2,7 @@ package PKG
 
 var zzF1Own = map[string]string{
 	"Query.me": "http://users", "Query.users": "http://users", "User.name": "http://users", "User.username": "http://users",
-	"User.reviews": "http://reviews", "Review.body": "http://reviews", "Review.author": "http://reviews", "Review.product": "http://reviews", "Product.reviews": "http://reviews",
+	"User.reviews": "http://reviews", "Review.body": "http://reviews", "Review.text": "http://reviews", "Review.author": "http://reviews", "Review.product": "http://reviews", "Product.reviews": "http://reviews",
 	"Query.topProducts": "http://products", "Product.name": "http://products", "Product.price": "http://products",
 }
 
